@@ -222,3 +222,36 @@ def history_twin(tier: str, seed: int, skip_transitive: bool = True) -> tuple[in
 		finally:
 			p.close()
 	return runs, fails
+
+
+BAD_SOURCES = [
+	('stray-colon', b'def f(:\n\tpass\n'),
+	('dedent-to-unopened-column', b'if a:\n    x = 1\n  y = 2\n'),
+	('invalid-utf8', b'x = "\xff\xfe"\n'),
+	('premature-eof', b'def f(a: int) -> int:\n\treturn (a +\n'),
+	('nul-byte', b'x = 1\x00\n'),
+	('unbalanced-bracket-in-decorator', b'@deco(a, [b)\ndef f() -> None:\n\tpass\n'),
+]
+
+
+def syntax_boundary_twin() -> tuple[int, list[dict]]:
+	"""C07 boundary on disk: every unparsable source file makes the CLI report rogw.tranp.errors.Errors.* (never a raw exception)."""
+	fails = []
+	n = 0
+	for name, data in BAD_SOURCES:
+		p = Project()
+		try:
+			os.makedirs(os.path.join(p.dir, 'src'), exist_ok=True)
+			with open(os.path.join(p.dir, 'src', 'bad.py'), 'wb') as f:
+				f.write(data)
+			r = p.run(force=True)
+			n += 1
+			import re
+			text = (r.stdout + r.stderr).strip()
+			heads = [ln for ln in text.splitlines() if re.match(r'^[A-Za-z_][\w\.]*: \(', ln)]  # '<exception class path>: (<args>' printed by ErrorRender
+			last = heads[-1] if heads else (text.splitlines()[-1] if text else '')
+			if not last.startswith('rogw.tranp.errors.Errors.'):
+				fails.append({'case': name, 'source': repr(data), 'where': 'on-disk module through the CLI', 'last_line': last[:300]})
+		finally:
+			p.close()
+	return n, fails
